@@ -130,6 +130,25 @@ def _float_exact(s, sigma):
     return _float_exact(s[2], sigma) and _float_exact(s[3], sigma)
 
 
+SIGMA = [{}]
+
+
+def _negative_base_inexact_exponent(s, sigma):
+    """some power has a negative base and an exponent that floating point does not compute exactly
+    (b * 7 / b, q^2 * x^-2): mathematically an integer, in the execution 7.000000000000001, and a
+    negative number to a non-integer power is nan -- rounding decides, not the property"""
+    if s is None or s[0] in ("Constant", "Variable"):
+        return False
+    if s[0] == "Power" and s[2] is not None and s[3] is not None:
+        try:
+            b = X.ev(s[2], sigma)
+            if b.v < 0 and not _float_exact(s[3], sigma):
+                return True
+        except X.Undef:
+            pass
+    return _negative_base_inexact_exponent(s[2], sigma) or _negative_base_inexact_exponent(s[3], sigma)
+
+
 def _first_div0_transparent(sh, sigma):
     """True iff evaluating hits a division by zero and every node above the first such
     division is NaN-transparent (+ - * / negate), and everything else is defined."""
@@ -206,6 +225,7 @@ def decide(prop, node, sh, context, res, exc, ctx_type=None):
             return
         sigma[x] = v
         classes.add(_num_class(ctx[x]))
+    SIGMA[0] = sigma
     if S.has_nonfinite(sh):
         rec.skip("eval: non-finite constant")
         return
@@ -316,6 +336,9 @@ def _compare(rec, bad, sh, res, want, int_only, what):
         rec.skip("eval: ill-conditioned sample")
         return
     if rv is None:
+        if _isnan(res) and not int_only and _negative_base_inexact_exponent(sh, SIGMA[0]):
+            rec.skip("eval: negative base with an exponent that is an integer only mathematically")
+            return
         if _isnan(res) or (isinstance(res, float) and math.isinf(res)):
             if not want.approx and abs(want.v) > Fraction(10) ** 150:
                 rec.skip("eval: float overflow region")
